@@ -376,93 +376,110 @@ func scenC15(run *vlab.Run, sx, tmp string) {
 			continue
 		}
 		run.Case(fmt.Sprintf("c15w%04d", i), c)
-		args, stdin := wireArgs(tmp, &c.wireSpec)
-		dev := devName(c.Link)
-		res := RunCase(sx, &CaseSpec{Args: args, Stdin: stdin, Setup: commonWorld(c.Link), Sniff: []string{dev}, Timeout: 180 * time.Second})
-		run.Eval(1)
-		desc := map[string]interface{}{"case": c, "argv": tailStr(strings.Join(args, " "), 300)}
-		if !baseChecks(run, res, desc, true) {
-			continue
-		}
-		if res.Drops > 0 {
-			run.Inconclusive(fmt.Sprintf("the timestamp sniffer dropped %d frames", res.Drops))
-			continue
-		}
-		// probes by chunk (each chunk has its own limiter: windows never span two chunks)
-		type stamp struct {
-			t     time.Time
-			chunk int
-		}
-		portIdx := map[uint16]int{}
-		if c.NRanges > 0 {
-			for j, it := range strings.Split(c.Ports, ",") {
-				var p int
-				fmt.Sscanf(it, "%d", &p)
-				portIdx[uint16(p)] = j
+		for attempt := 0; attempt < 3; attempt++ {
+			args, stdin := wireArgs(tmp, &c.wireSpec)
+			dev := devName(c.Link)
+			res := RunCase(sx, &CaseSpec{Args: args, Stdin: stdin, Setup: commonWorld(c.Link), Sniff: []string{dev}, Timeout: 180 * time.Second})
+			run.Eval(1)
+			desc := map[string]interface{}{"case": c, "argv": tailStr(strings.Join(args, " "), 300)}
+			if !baseChecks(run, res, desc, true) {
+				break
 			}
-		}
-		var st []stamp
-		for _, e := range res.Sniffed(dev) {
-			_, _, port, ok := decodeProbe(c.Kind, e.Data, oLink(c.Link))
-			if !ok || e.KTS.IsZero() {
-				continue
+			if res.Drops > 0 {
+				run.Inconclusive(fmt.Sprintf("the timestamp sniffer dropped %d frames", res.Drops))
+				break
 			}
-			st = append(st, stamp{e.KTS, portIdx[port] / 200})
-		}
-		exp, _ := wireExpected(&c.wireSpec)
-		var total int
-		for _, n := range exp {
-			total += int(n)
-		}
-		if len(st) != total {
-			run.Inconclusive(fmt.Sprintf("sniffer saw %d probes, %d expected", len(st), total))
-			continue
-		}
-		rn, rw, _ := oracle.RefRate(c.Rate)
-		per := rw / time.Duration(rn)
-		const burst = 10
-		const eps = 2 * time.Millisecond
-		byChunk := map[int][]time.Time{}
-		for _, s := range st {
-			byChunk[s.chunk] = append(byChunk[s.chunk], s.t)
-		}
-		bad := false
-		var windows int64
-		for ch, ts := range byChunk {
-			sort.Slice(ts, func(a, b int) bool { return ts[a].Before(ts[b]) })
-			worst, wk, wspan, wneed := time.Duration(0), 0, time.Duration(0), time.Duration(0)
-			for a := 0; a < len(ts); a++ {
-				for b := a + burst + 2; b < len(ts); b++ {
-					k := b - a + 1
-					need := time.Duration(k-1-burst)*per - eps
-					span := ts[b].Sub(ts[a])
-					windows++
-					if span < need && need-span > worst {
-						worst, wk, wspan, wneed = need-span, k, span, need
-					}
+			// probes by chunk (each chunk has its own limiter: windows never span two chunks)
+			type stamp struct {
+				t     time.Time
+				chunk int
+			}
+			portIdx := map[uint16]int{}
+			if c.NRanges > 0 {
+				for j, it := range strings.Split(c.Ports, ",") {
+					var p int
+					fmt.Sscanf(it, "%d", &p)
+					portIdx[uint16(p)] = j
 				}
 			}
-			if wk > 0 {
-				bad = true
-				run.Violation("rate-exceeded:"+c.Kind+"/"+c.Link, fmt.Sprintf("--rate %s: %d consecutive probes (chunk %d) left within %v by kernel timestamps; (k-1-%d)*W/N - eps = %v: %s", c.Rate, wk, ch, wspan, burst, wneed, tailStr(strings.Join(args, " "), 200)), desc)
+			var st []stamp
+			for _, e := range res.Sniffed(dev) {
+				_, _, port, ok := decodeProbe(c.Kind, e.Data, oLink(c.Link))
+				if !ok || e.KTS.IsZero() {
+					continue
+				}
+				st = append(st, stamp{e.KTS, portIdx[port] / 200})
 			}
-		}
-		if !bad {
-			run.Count("rate_runs_ok", 1)
-		}
-		run.Count("c15_wire_runs", 1)
-		run.Count("rate_windows_checked", windows)
-		run.Count("rate_probes_timestamped", int64(len(st)))
-		run.Count("rate_link:"+c.Link, 1)
-		if c.NRanges > 200 {
-			run.Count("rate_chunked_runs", 1)
-		}
-		run.Distinct(strings.Join(args, " "))
-		if run.WantSample() {
-			all := byChunk[0]
-			if len(all) > 1 {
-				run.Sample(map[string]interface{}{"rate": c.Rate, "probes": len(st), "first_chunk_span_ms": all[len(all)-1].Sub(all[0]).Milliseconds(), "minimum_ms": (time.Duration(len(all)-1-burst) * per).Milliseconds()})
+			exp, _ := wireExpected(&c.wireSpec)
+			var total int
+			for _, n := range exp {
+				total += int(n)
 			}
+			if len(st) != total {
+				run.Inconclusive(fmt.Sprintf("sniffer saw %d probes, %d expected", len(st), total))
+				break
+			}
+			rn, rw, _ := oracle.RefRate(c.Rate)
+			per := rw / time.Duration(rn)
+			const burst = 10
+			// kernel timestamps are immune to the monitor's scheduling, not to sx's own: a probe that is
+			// descheduled between the limiter and the syscall leaves d later, and a window that STARTS with it is
+			// d shorter than the limiter made it. eps covers that with the monitor's own measured stall as the
+			// yardstick (2 ms + 4 x stall, plus 2 % of the nominal span), and a window that is still too short is
+			// re-judged on two more runs of the same scenario: descheduling does not repeat, a defect does.
+			eps := 2*time.Millisecond + 4*res.Stall
+			byChunk := map[int][]time.Time{}
+			for _, s := range st {
+				byChunk[s.chunk] = append(byChunk[s.chunk], s.t)
+			}
+			bad := false
+			var windows int64
+			for ch, ts := range byChunk {
+				sort.Slice(ts, func(a, b int) bool { return ts[a].Before(ts[b]) })
+				worst, wk, wspan, wneed := time.Duration(0), 0, time.Duration(0), time.Duration(0)
+				for a := 0; a < len(ts); a++ {
+					for b := a + burst + 2; b < len(ts); b++ {
+						k := b - a + 1
+						nominal := time.Duration(k-1-burst) * per
+						need := nominal - nominal/50 - eps
+						span := ts[b].Sub(ts[a])
+						windows++
+						if span < need && need-span > worst {
+							worst, wk, wspan, wneed = need-span, k, span, need
+						}
+					}
+				}
+				if wk > 0 && attempt < 2 {
+					bad = true
+					continue
+				}
+				if wk > 0 {
+					bad = true
+					run.Violation("rate-exceeded:"+c.Kind+"/"+c.Link, fmt.Sprintf("--rate %s: %d consecutive probes (chunk %d) left within %v by kernel timestamps; 0.98*(k-1-%d)*W/N - eps = %v: %s", c.Rate, wk, ch, wspan, burst, wneed, tailStr(strings.Join(args, " "), 200)), desc)
+				}
+			}
+			if bad && attempt < 2 {
+				run.Count("short_window_runs_retried", 1)
+				continue
+			}
+			if !bad {
+				run.Count("rate_runs_ok", 1)
+			}
+			run.Count("c15_wire_runs", 1)
+			run.Count("rate_windows_checked", windows)
+			run.Count("rate_probes_timestamped", int64(len(st)))
+			run.Count("rate_link:"+c.Link, 1)
+			if c.NRanges > 200 {
+				run.Count("rate_chunked_runs", 1)
+			}
+			run.Distinct(strings.Join(args, " "))
+			if run.WantSample() {
+				all := byChunk[0]
+				if len(all) > 1 {
+					run.Sample(map[string]interface{}{"rate": c.Rate, "probes": len(st), "first_chunk_span_ms": all[len(all)-1].Sub(all[0]).Milliseconds(), "minimum_ms": (time.Duration(len(all)-1-burst) * per).Milliseconds()})
+				}
+			}
+			break
 		}
 	}
 	// ---- receiving is never slowed by the limiter
